@@ -244,18 +244,23 @@ def timeout_wrapper(wrapped_func: Callable[..., Any]) -> Callable[..., Any]:
             previous_delay, previous_interval = signal.setitimer(signal.ITIMER_REAL, timeout)
             started = time.monotonic()
             try:
-                return wrapped_func(*args, **kwargs)
-            finally:
-                if timeout:
+                try:
+                    return wrapped_func(*args, **kwargs)
+                finally:
+                    # if the call returns on the tick of its deadline our alarm can still go off
+                    # right here, i.e. raise from inside this block; the outer finally below runs
+                    # whatever happens, so the handler and the previous timer are always put back
                     signal.setitimer(signal.ITIMER_REAL, 0)
-                    signal.signal(signal.SIGALRM, old)
-                    if previous_delay > 0:
-                        # re-arm the previous timer with the time it has left; if it would have
-                        # expired while we were running it fires (with its own handler) right away
-                        remaining = previous_delay - (time.monotonic() - started)
-                        signal.setitimer(
-                            signal.ITIMER_REAL, max(remaining, 0.000001), previous_interval
-                        )
+            finally:
+                signal.setitimer(signal.ITIMER_REAL, 0)
+                signal.signal(signal.SIGALRM, old)
+                if previous_delay > 0:
+                    # re-arm the previous timer with the time it has left; if it would have
+                    # expired while we were running it fires (with its own handler) right away
+                    remaining = previous_delay - (time.monotonic() - started)
+                    signal.setitimer(
+                        signal.ITIMER_REAL, max(remaining, 0.000001), previous_interval
+                    )
 
     # ensures that the wrapped function is updated w/ the original functions docs/etc. --
     # necessary for introspection for the auto gen docs to work!
